@@ -31,7 +31,7 @@ void SharedMutex::unlock() noexcept {
 
 void SharedMutex::lock_shared() {
   while (_occupied && _exclusive_mode) {
-    _exclusive_queue.Wait(NoTimeoutTag{});
+    _shared_queue.Wait(NoTimeoutTag{});
   }
   SharedLockHelper();
 }
